@@ -36,8 +36,9 @@ OfLoom(S, l) == {i \in 1..Len(S) : S[i].loom = l}
 
 Apps(S, l, p)   == {S[i].app : i \in OfProc(S, l, p)} \ {0}
 Ranks(S, l, p)  == {S[i].rank : i \in {j \in OfProc(S, l, p) : S[j].rank # -1}}
-\* nranks is only read from streams that carry a rank
-NRanks(S, l, p) == {S[i].nranks : i \in {j \in OfProc(S, l, p) : S[j].rank # -1}}
+\* every stream that carries a rank count counts ("different ... rank count within a process"),
+\* whether or not it also carries the rank
+NRanks(S, l, p) == {S[i].nranks : i \in OfProc(S, l, p)} \ {0}
 CpuPairs(S, l)  == UNION {Range(S[i].cpus) : i \in OfLoom(S, l)}
 
 ProcHasRank(S, l, p) == Ranks(S, l, p) # {}
@@ -48,9 +49,11 @@ Consistent(S) ==
         /\ Cardinality(Apps(S, l, p)) = 1 /\ \A a \in Apps(S, l, p) : a > 0
         /\ Cardinality(Ranks(S, l, p)) <= 1
         /\ \A r \in Ranks(S, l, p) : r >= 0
+        /\ Cardinality(NRanks(S, l, p)) <= 1
+        /\ \A n \in NRanks(S, l, p) : n > 0
         /\ ProcHasRank(S, l, p) =>
               /\ Cardinality(NRanks(S, l, p)) = 1
-              /\ \A n \in NRanks(S, l, p) : n > 0 /\ \A r \in Ranks(S, l, p) : r < n
+              /\ \A n \in NRanks(S, l, p) : \A r \in Ranks(S, l, p) : r < n
         \* no two streams of a process with the same tid
         /\ \A i, j \in OfProc(S, l, p) : i # j => S[i].tid # S[j].tid
    /\ \A l \in LoomsOf(S) :
@@ -149,14 +152,11 @@ MergeOne(st, m) ==
        \* load_appid
        appBad == m.app # 0 /\ ((p0.app # 0 /\ p0.app # m.app) \/ m.app <= 0)
        p1 == IF m.app # 0 THEN [p0 EXCEPT !.app = m.app] ELSE p0
-       \* load_rank
-       rankBad == m.rank # -1 /\
-                  (\/ m.rank < 0
-                   \/ (p1.rank >= 0 /\ p1.rank # m.rank)
-                   \/ m.nranks = 0 \/ m.nranks < 0
-                   \/ (p1.nranks > 0 /\ p1.nranks # m.nranks)
-                   \/ m.rank >= m.nranks)
-       p2 == IF m.rank # -1 THEN [p1 EXCEPT !.rank = m.rank, !.nranks = m.nranks] ELSE p1
+       \* load_rank ("fix: emu: merge the rank and the rank count of a process independently")
+       rankBad == \/ (m.rank # -1 /\ (m.rank < 0 \/ (p1.rank >= 0 /\ p1.rank # m.rank)))
+                  \/ (m.nranks # 0 /\ (m.nranks < 0 \/ (p1.nranks > 0 /\ p1.nranks # m.nranks)))
+       p2 == [p1 EXCEPT !.rank = IF m.rank # -1 THEN m.rank ELSE @,
+                        !.nranks = IF m.nranks # 0 THEN m.nranks ELSE @]
        tk == <<l, m.pid, m.tid>>
    IN
    IF ~cs.ok \/ appBad \/ rankBad \/ tk \in st.tids THEN [st EXCEPT !.ok = FALSE]
@@ -169,6 +169,8 @@ Fold(st, S, i) == IF i > Len(S) THEN st ELSE Fold(MergeOne(st, S[i]), S, i + 1)
 \* set_sort_criteria / loom_set_rank_min / *_init_end
 InitEndOk(st) ==
    /\ \A pk \in DOMAIN st.procs : st.procs[pk].app > 0
+   /\ \A pk \in DOMAIN st.procs :         \* proc_init_end: a rank needs a rank count that contains it
+        st.procs[pk].rank >= 0 => (st.procs[pk].nranks > 0 /\ st.procs[pk].rank < st.procs[pk].nranks)
    /\ \A l \in Range(st.looms) :
         LET P == st.cpus[l]
             procs == {pk \in DOMAIN st.procs : pk[1] = l}
